@@ -10,6 +10,9 @@ Decided clauses:
   R4  no ordering by a history-dependent identity: nothing sorts, searches or keys an ordered container by
       boa_interner::Sym (its Ord is the interner index = the order in which this context first saw the identifiers,
       shared by all realms and scripts of the context) or by an address-like key (JsObject, Gc, Module, raw pointers)
+  R5  keys that compare equal hash equal: in `impl Hash for JsValue` (the key type of Map / Set, which are hashed with a
+      per-table random seed) the Integer32 arm and the Float64 arm feed the hasher through the same Hash impl — the engine
+      never normalises floats back to ints, so 7 and 7.0 meet as SameValueZero-equal keys with different tags
 Not decided: byte-identical traces; absence of other address dependence.
 """
 import re
@@ -249,9 +252,50 @@ def r4(db, rep):
     rep.floor("R4", "ordering calls examined (sort/search/min/max/ordered containers)", examined, 40)
 
 
+def r5(db, rep):
+    rep.rule("R5", "Hash for JsValue hashes an int32-tagged and a float-tagged number through the same Hash impl (equal keys "
+                   "hash equal; otherwise Map/Set lookups depend on the per-table random seed)")
+    fs = [f for f in db.fns.values() if f.id == "boa_engine::value::hash::<impl core::hash::Hash for boa_engine::value::JsValue>::hash"
+          or (f.id.endswith("Hash for boa_engine::value::JsValue>::hash") and "{closure" not in f.id)]
+    if not rep.anchor("R5", "impl Hash for JsValue", fs):
+        return
+    f = fs[0]
+    adt = next((a for k, a in db.adts.items() if k.endswith("value::variant::JsVariant") or k.endswith("::JsVariant")), None)
+    if not rep.anchor("R5", "enum JsVariant", adt):
+        return
+    sw = None
+    for sb in f._rpo():
+        tt = f.blocks[sb]["t"]
+        if tt["t"] != "switch":
+            continue
+        l = op_local(tt["o"])
+        d = f.single_def(l) if l is not None else None
+        if d and d[1] != "t" and d[2].get("k") == "discr" and "JsVariant" in f.locals[d[2]["p"][0]]:
+            sw = (sb, tt)
+            break
+    if not rep.anchor("R5", "match on JsVariant in Hash for JsValue", sw):
+        return
+    sb, tt = sw
+    reach = {}
+    for i, v in enumerate(adt["variants"]):
+        tgt = tt["tgts"][tt["vals"].index(str(i))] if str(i) in tt["vals"] else tt["tgts"][-1]
+        reach[v["name"]] = f.reach_from([tgt], avoid={sb})
+    table = {}
+    for nm, r in reach.items():
+        others = set().union(*[x for m, x in reach.items() if m != nm])
+        table[nm] = {(t.get("rf") or callee(t) or "") for b in (r - others) for t in [f.blocks[b]["t"]]
+                     if t["t"] == "call" and (callee(t) or "").endswith("::hash") and "Hash" in (callee(t) or "")}
+    a, b_ = table.get("Integer32", set()), table.get("Float64", set())
+    rep.ob("R5", "JsValue::hash:int-and-float-hash-alike", bool(a) and a == b_,
+           f"Hash for JsValue hashes Integer32 through {sorted(a)} but Float64 through {sorted(b_)}: `m.set(7, 1); m.get((7.5) - 0.5)` "
+           f"then finds the entry only when the two SipHash results happen to agree for that table's random seed — the same "
+           f"program gives different traces in different processes and in two fresh contexts of one process", loc=f.span)
+
+
 def run(db, rep, tier):
     r1(db, rep)
     r2(db, rep)
     r3(db, rep)
     r4(db, rep)
+    r5(db, rep)
     rep.assumptions += ["FxHasher is a deterministic function of the key bytes; Sym/u32/JsString keys hash by value"]
